@@ -304,6 +304,7 @@ class FakeLink:
             self.log.append(('txother', pk.port, pk.channel, bytes(pk.data)))
             return
         self.log.append(('tx', pk.channel, bytes(pk.data)))
+        self.last_tx = pk
         self.dev.recv(pk.channel, bytes(pk.data))
 
     def receive_packet(self, wait=0):
@@ -357,9 +358,17 @@ class Harness:
     """cfg: dict(toc=[[id, name, group, tycode, ro, pers], ...], cb_param=[[name, cb]], cb_group=[[group, cb]],
     cb_all=[cb], dev_init={id: bytes}, dev_default={id: bytes}, dev_enoent=[id], version=7)"""
 
-    def __init__(self, cfg):
+    def __init__(self, cfg, fine=False):
+        """fine=True: Crazyflie._send_lock is cooperative as well, so the updater also hands over between its
+        wait_lock / link check and the driver call inside Crazyflie.send_packet"""
+        import cflib.crazyflie as A
         import cflib.crazyflie.param as P
         self.P = P
+        self.A = A
+        self.fine = fine
+        self.saved_A_lock = A.Lock
+        if fine:
+            A.Lock = DLock
         self.saved = (P.Lock, P.Event, P.Queue, threading.Thread.start, DQueue.on_put)
         self.saved_queues = {n: getattr(P, n) for n in QUEUE_CLASSES if hasattr(P, n)}
         self.sched = Sched()
@@ -468,6 +477,7 @@ class Harness:
             if pk is None:
                 raise HarnessError('no CRTP packet found in the item put on the request queue')
             self.log.append(('enq', pk.channel, bytes(pk.data)))
+            self.last_put = pk
 
     def canon(self, ty, v):
         """value as the callbacks see it (str from update callbacks, number from misc callbacks) -> [kind, int]"""
@@ -584,7 +594,53 @@ class Harness:
 
     def can_usend(self):
         w = self.sched.waiting(self.updater)
-        return bool(w and w[0] == 'acquire' and not self.updater.wait_lock.l)
+        return bool(w and w[0] == 'acquire' and w[1] is self.updater.wait_lock and not self.updater.wait_lock.l)
+
+    def updater_pos(self):
+        """'G' at request_queue.get(), 'A' holding a request at wait_lock.acquire(), 'S' inside Crazyflie.send_packet at
+        _send_lock.acquire() (fine mode only)"""
+        w = self.sched.waiting(self.updater)
+        if w and w[0] == 'get':
+            return 'G'
+        if w and w[0] == 'acquire':
+            return 'A' if w[1] is self.updater.wait_lock else 'S'
+        return '?'
+
+    def updater_enabled(self):
+        p = self.updater_pos()
+        if p == 'G':
+            return bool(self.updater.request_queue.qsize())
+        if p == 'A':
+            return not self.updater.wait_lock.l
+        if p == 'S':
+            return not self.cf._send_lock.l
+        return False
+
+    # ---- the two halves of a link change, through the real callback lists
+    def link_down(self):
+        """close_link / _link_error_cb: the link reference is dropped first, then the disconnected callbacks run"""
+        self.cf.link = None
+        self.cf.disconnected.call('fake://0')
+        self.dev.out[:] = []
+
+    def link_up(self, cfg):
+        """open_link: connection_requested callbacks, new link (same fake object, new device), new table"""
+        from cflib.crazyflie.param import ParamTocElement
+        cf = self.cf
+        cf.connection_requested.call('fake://0')
+        self.cfg = cfg
+        self.dev = Device(cfg['dev_init'], cfg['dev_default'], cfg['dev_enoent'])
+        self.link.dev = self.dev
+        cf.link = self.link
+        self.elems = {}
+        for (i, n, g, ty, ro, pers) in cfg['toc']:
+            meta = ty | (0x40 if ro else 0) | (0x10 if pers else 0)
+            e = ParamTocElement(i, bytes([meta]) + ('g%d' % g).encode() + b'\0' + ('n%d' % n).encode() + b'\0')
+            if pers:
+                e.mark_persistent()
+            cf.param.toc.add_element(e)
+            self.elems[n] = (i, n, g, ty, ro, pers)
+        self.by_cname = {self.cname(n): self.elems[n] for n in self.elems}
 
     def can_deliver(self):
         return bool(self.dev.out)
@@ -658,4 +714,5 @@ class Harness:
             P.Lock, P.Event, P.Queue, threading.Thread.start, DQueue.on_put = self.saved
             for n, c in self.saved_queues.items():
                 setattr(P, n, c)
+            self.A.Lock = self.saved_A_lock
             Sched.cur = None
